@@ -171,6 +171,7 @@ func (p *Program) installIntrinsics() {
 	p.installDeepCopy()
 	p.installOS()
 	p.installURL()
+	p.installCSV()
 	p.installVerif()
 }
 
@@ -502,8 +503,37 @@ func (p *Program) installVerif() {
 		fr.m.absHashPrefix = nameOf(a[0])
 		return nil
 	}
+	v["verifPreemptions"] = func(fr *frame, a []Value) Value {
+		fr.m.preemptBound = fr.m.concreteInt(a[0], "preemption bound")
+		return nil
+	}
+	v["verifLockset"] = func(fr *frame, a []Value) Value {
+		if a[0].(*Term).val == 1 {
+			if fr.m.lockset == nil {
+				fr.m.lockset = newLockset()
+			}
+			fr.m.locksetOn = true
+		} else {
+			fr.m.locksetOn = false
+		}
+		return nil
+	}
+	// verifRaceFree asserts that no race candidate was recorded so far
+	v["verifRaceFree"] = func(fr *frame, a []Value) Value {
+		m := fr.m
+		if m.lockset == nil {
+			return nil
+		}
+		if cs := m.lockset.candidates(); len(cs) > 0 {
+			m.failHere("RACE-CANDIDATE", nameOf(a[0])+": "+strings.Join(cs, "; "))
+		}
+		return nil
+	}
 	v["verifSchedule"] = func(fr *frame, a []Value) Value {
 		fr.m.schedOn = a[0].(*Term).val == 1
+		if fr.m.schedOn {
+			fr.m.schedUsed = true
+		}
 		return nil
 	}
 	v["verifExpectPanic"] = func(fr *frame, a []Value) Value { fr.m.expectPanic = true; return nil }
